@@ -39,7 +39,8 @@ from radicale.app import Application
 
 radicale.log.logger.setLevel(logging.CRITICAL)
 
-DEADLINE = 40.0       # generous: only reached when something is really stuck
+DEADLINE = 30.0       # generous: only reached when something is really stuck
+FAILED_SCRIPTS = 0    # per driver process: after 3 failing scripts the rest is skipped (enough replays, bounded time)
 QUIET = 0.25          # quiet period for "does not happen" observations
 MAXQ = 4              # queued (not accepted) connections per listener: below socketserver's listen(5)
 
@@ -373,7 +374,7 @@ class Run:
             self.parked.set()            # wake a waiter
         self.serve_thread = threading.Thread(target=target, daemon=True, name="serve")
         self.serve_thread.start()
-        if not self.wait_for(lambda: self.parked.is_set()):
+        if not self.wait_for(lambda: self.sel_calls or self.t_return is not None):
             raise Inconclusive("server did not start")
         if self.serve_exc or len(self.servers) != self.cfg["listeners"]:
             raise Inconclusive("server start failed: %r %d" % (self.serve_exc, len(self.servers)))
@@ -391,6 +392,8 @@ class Run:
         return {k: v for k, v in rec.items() if k != "rlist"}
 
     def wait_for(self, cond, deadline=DEADLINE, step=0.002):
+        if self.fail:
+            deadline = min(deadline, 2.0)      # something already failed: do not spend more time on this script
         end = time.monotonic() + deadline
         while not cond():
             if time.monotonic() > end:
@@ -561,7 +564,7 @@ class Run:
     def op_wait_timeouts(self):
         T = float(self.cfg["timeout"])
         for cl in sorted(self.silent(), key=lambda x: x.acc_seq):
-            if not self.wait_for(lambda: self.worker_ready(cl), deadline=T + DEADLINE):
+            if not self.wait_for(lambda: self.worker_ready(cl), deadline=T + 20.0):
                 self.fail.append(dict(what="silent connection is never dropped (timeout %.2fs)" % T, conn=cl.c))
                 raise Inconclusive("stuck")
             self.timeout_seen(cl)
@@ -859,6 +862,11 @@ class Run:
 
 
 def run_script(job):
+    global FAILED_SCRIPTS
+    if FAILED_SCRIPTS >= 3:
+        return dict(skipped=True, seed=job["seed"], cfg=job["cfg"])
+    if not job.get("lockstep", True):
+        return run_free(job)
     rng = random.Random(job["seed"])
     run = Run(job["cfg"], job.get("lockstep", True), rng)
     res = dict(seed=job["seed"], cfg=job["cfg"], inconclusive=None)
@@ -878,6 +886,146 @@ def run_script(job):
     res.update(ops=run.ops, events=run.events, obs=run.obs, fail=run.fail, notes=run.notes, stats=run.stats,
                max_in_handler=run.max_in_handler, max_worker_sockets=run.max_worker_sockets,
                n_clients=len(run.clients), stopped_early=run.break_k)
+    if run.fail:
+        FAILED_SCRIPTS += 1
+    return res
+
+
+# ------------------------------------------------------------------------------------------ free-running mode
+def run_free(job):
+    """No gating of the loop: client threads, handler hold times and the shutdown run on real timers.
+    Only direct monitors of the property are evaluated (the model is not involved)."""
+    global FAILED_SCRIPTS
+    rng = random.Random(job["seed"])
+    cfg = job["cfg"]
+    run = Run(cfg, False, rng)
+    res = dict(seed=job["seed"], cfg=cfg, inconclusive=None, free=True)
+    T = float(cfg["timeout"])
+    short = 0 < T < 5
+    mc, ml = cfg["max_conn"], cfg["max_len"]
+    n = rng.randint(mc + 1, mc + MAXQ) if mc > 0 else rng.randint(3, 8)
+    plans = []
+    for c in range(n):
+        kind = rng.choice(["fast", "fast", "fast", "slow", "silent", "closer"])
+        plans.append(dict(c=c, lis=rng.randrange(cfg["listeners"]), kind=kind, offset=rng.random() * 0.2,
+                          delay=rng.random() * 0.15, hold=rng.choice([0.0, 0.02, 0.1, 0.25]), m=None))
+    stop_at = rng.choice([None, None, rng.random() * 0.6])
+    try:
+        run.start()
+        run.events, run.obs = [], []
+
+        def releaser(c, hold):
+            ev = run.release_event(c)
+            threading.Timer(hold, ev.set).start()
+        run.free_hold = {p["c"]: p["hold"] for p in plans}
+        orig_enter = run.handler_enter
+
+        def enter(c):
+            orig_enter(c)
+            releaser(c, run.free_hold.get(c, 0.0))
+        run.handler_enter = enter
+
+        def client(p):
+            try:
+                time.sleep(p["offset"])
+                cl = Client(p["c"], p["lis"])
+                s_ = socket.socket(socket.AF_INET, socket.SOCK_STREAM)
+                s_.settimeout(DEADLINE)
+                s_.bind(("127.0.0.1", 0))
+                with run.lock:
+                    run.clients[p["c"]] = cl
+                    run.by_port[s_.getsockname()[1]] = p["c"]
+                s_.connect(("127.0.0.1", run.ports[p["lis"]]))
+                cl.sock = s_
+                kind = p["kind"]
+                if kind == "slow" and not short:
+                    time.sleep(p["delay"])
+                if kind in ("fast", "slow"):
+                    cl.sent = p["m"]
+                    s_.sendall(build_request(p["c"], p["m"]))
+                elif kind == "closer" or (kind == "silent" and not short):
+                    time.sleep(p["delay"] if kind == "closer" else 0.3)
+                    if not short or kind == "closer" and not cl.accepted:
+                        cl.closed = True
+                        s_.shutdown(socket.SHUT_WR)
+                cl.pump(DEADLINE + T)
+            except Exception as e:   # connection refused/reset after shutdown is expected
+                p["error"] = repr(e)
+        for p in plans:
+            p["m"] = run.gen_msg()
+        threads = [threading.Thread(target=client, args=(p,), daemon=True) for p in plans]
+        t0 = time.monotonic()
+        for t in threads:
+            t.start()
+        if stop_at is not None:
+            time.sleep(stop_at)
+        else:
+            for t in threads:
+                t.join(DEADLINE + T + 5)
+            if any(t.is_alive() for t in threads):
+                run.fail.append(dict(what="free-running: clients are not all served although no shutdown was requested",
+                                     unserved=[p["c"] for p, t in zip(plans, threads) if t.is_alive()]))
+        run.stopped = True
+        run.shutdown_in.close()
+        if not run.wait_for(lambda: run.t_return is not None, deadline=DEADLINE + T):
+            run.fail.append(dict(what="free-running: serve() does not return after shutdown"))
+        for t in threads:
+            t.join(5)
+        # ---- monitors
+        k_stop = None
+        for rec in run.sel_calls:
+            n_ws = len(rec["rl_ws"])
+            want = mc <= 0 or n_ws < mc
+            if (len(rec["rl_listen"]) > 0) != want or len(rec["rl_listen"]) not in (0, len(run.servers)):
+                run.fail.append(dict(what="free-running: listeners polled with %d connections in flight, max_connections=%d"
+                                     % (n_ws, mc) if len(rec["rl_listen"]) else
+                                     "free-running: listeners not polled although a slot is free", rec=run.rec_json(rec)))
+                break
+            if rec["ret"] and rec["ret"]["stop"] and k_stop is None:
+                k_stop = rec["k"]
+        run.break_k = k_stop
+        for cl in run.clients.values():
+            cl.done = cl.eof
+        if k_stop is not None and run.sel_calls[-1]["k"] != k_stop:
+            run.fail.append(dict(what="free-running: the loop went on after select reported the shutdown socket"))
+        run.final_monitors()
+        if run.t_return is not None:
+            early = [c for c, cl in run.clients.items() if cl.accepted and
+                     (run.t_closing.get(c) is None or run.t_closing[c] > run.t_return)]
+            if early:
+                run.fail.append(dict(what="serve() returned while accepted connections were still being processed",
+                                     conns=early))
+        for c, cl in run.clients.items():
+            if not cl.accepted:
+                continue
+            st, complete = parse_response(cl.data)
+            if c in run.handler_calls and (st != 200 or not complete):
+                run.fail.append(dict(what="request in flight did not get a complete response", conn=c, status=st,
+                                     complete=complete, free=True))
+            if short and cl.sent is None and not cl.closed and cl.t_eof is not None and cl.t_accept is not None:
+                run.stats["timeouts"] += 1
+                if cl.t_eof < cl.t_accept + T - 0.02 or cl.data:
+                    run.fail.append(dict(what="silent connection dropped before the timeout", conn=c,
+                                         after=cl.t_eof - cl.t_accept, timeout=T))
+            if not cl.eof and cl.sock is not None:
+                run.fail.append(dict(what="free-running: accepted connection never finished", conn=c))
+        res["plans"] = plans
+        res["stop_at"] = stop_at
+    except Inconclusive as e:
+        res["inconclusive"] = str(e)
+    except Exception:
+        res["inconclusive"] = "driver error: " + traceback.format_exc()
+        res["driver_error"] = True
+    finally:
+        try:
+            run.cleanup()
+        except Exception:
+            pass
+    res.update(fail=run.fail, notes=run.notes, stats=run.stats, max_in_handler=run.max_in_handler,
+               max_worker_sockets=run.max_worker_sockets, n_clients=len(run.clients), stopped_early=run.break_k,
+               n_selects=len(run.sel_calls), n_accepts=len(run.accept_log))
+    if run.fail:
+        FAILED_SCRIPTS += 1
     return res
 
 
